@@ -1,7 +1,8 @@
 /-
   C02 — equality is extensional; equal values are interchangeable.
 
-  Property theorems only (helper lemmas: Arrai/C02/{Assoc,Lemmas,Ctors}.lean; model: Arrai/C02/Model.lean).
+  Property theorems only (helper lemmas: Arrai/C02/{Assoc,SortNames,Lemmas,Ctors,CtorsGen}.lean; model:
+  Arrai/C02/Model.lean).
 
   `Rep` has one constructor per Go value type, `den : Rep → V` is the denotation, `wf` the canonical-form
   invariant the Go constructors are supposed to establish, `Impl.equal` the transliteration of every `Equal`
@@ -10,12 +11,18 @@
   `Equal` of every set nested in a set is decided by `Hash`: the hash has to be *injective* up to
   denotation, not only to respect `Equal`.
 
-  Full statements are kept as `def …_full : Prop`; what is proved is `…_partial` for the fragment `frag`:
-  numbers, generic tuples, character/byte/item/entry tuples, strings and byte arrays (offsets, holes),
-  arrays (offsets, holes), dictionaries (keys with one or several values), booleans and generic sets of all
-  these, nested arbitrarily — except that an item or entry tuple may not be the *direct* child of a tuple,
-  array, dictionary or item/entry tuple (their hash threads the seed).  Relations and union sets are covered
-  by the correspondence run only.
+  `wf_unique` (Part 3) and the constructor theorems (Part 5) are proved for ALL canonical representations.
+  For `Equal` and `Hash` (Parts 1, 2, 4) the full statements are kept as `def …_full : Prop`; what is proved
+  is `…_partial` for the fragment `frag`, which now contains every constructor of `Rep`: numbers, generic
+  tuples, character/byte/item/entry tuples, strings and byte arrays (offsets, holes), arrays (offsets,
+  holes), dictionaries (keys with one or several values, incl. `Dict.Equal` against any other set),
+  relations (column order irrelevant), union sets (one subset per bucket), booleans and generic sets of all
+  these, nested arbitrarily.  The one remaining exclusion: an item tuple `(@: i, @item: x)` or entry tuple
+  `(@: k, @value: v)` may not be the *direct* child of a tuple, array, dictionary, relation row or item/entry
+  tuple (`plain`): their `Hash` threads the seed through instead of producing an atom under the slot's
+  seed.  (As members of a set they are array items / dictionary entries and are covered.)
+  This exclusion is necessary: `hash_injective_full_false` and `equal_iff_den_full_false` refute the full
+  statements with exactly such values (open finding KF-seed-threaded-hash; a two-line repair exists).
 -/
 import Arrai.C02.Lemmas
 import Arrai.C02.Ctors
@@ -77,6 +84,34 @@ theorem hash_seeded_partial (a b : Rep) (ha : wf a = true) (hb : wf b = true)
     hashG true a s = hashG true b s' ↔ (s = s' ∧ den a = den b) :=
   (main_frag (depth a + depth b + 1) a b (by omega) (by omega) ha hb fa fb).2 pa pb s s'
 
+/-! ### the `_full` statements of Parts 1 and 2 are false of the current `Hash` methods
+
+`ArrayItemTuple.Hash` and `DictEntryTuple.Hash` return the hash of the item/value under a seed derived from
+the index/key, unfinished.  The same chain of seeds arises when such tuples are nested the other way round, so
+two different values hash alike under every seed; as direct children of an array (tuple, relation row, …)
+they make two different containers hash alike, and frozen's `Set.Equal` trusts hashes.  On /repo:
+`{[(@: (@: 1, @item: 5), @value: 7)]} = {[(@: 1, @item: (@: 5, @value: 7))]}` is true
+(known finding KF-seed-threaded-hash).  This is exactly the case `frag`/`plain` exclude. -/
+
+/-- the collision, for all components and every seed -/
+theorem seed_threading_collision (i : Int) (a b : Rep) (s : HV) :
+    hashG true (.entryT (.itemT i a) b) s = hashG true (.itemT i (.entryT a b)) s := by
+  simp [hashG]
+
+theorem hash_injective_full_false : ¬ hash_injective_full := by
+  intro h
+  have := h (.array [some (.entryT (.itemT 1 (.num 5)) (.num 7))] 0 1)
+    (.array [some (.itemT 1 (.entryT (.num 5) (.num 7)))] 0 1) (by decide) (by decide) (by decide)
+  revert this
+  decide
+
+theorem equal_iff_den_full_false : ¬ equal_iff_den_full := by
+  intro h
+  have := (h (.generic [.array [some (.entryT (.itemT 1 (.num 5)) (.num 7))] 0 1])
+    (.generic [.array [some (.itemT 1 (.entryT (.num 5) (.num 7)))] 0 1]) (by decide) (by decide)).1 (by decide)
+  revert this
+  decide
+
 /-! ### Part 3 — canonical forms are unique -/
 
 /-- same constructor, same scalar fields, same hole pattern; children and collections compared up to
@@ -102,13 +137,12 @@ def sameRep : Rep → Rep → Prop
     bs.length = bs'.length ∧ ∀ k, (lookupAttr k bs).map den = (lookupAttr k bs').map den
   | _, _ => False
 
-def wf_unique_full : Prop :=
-  ∀ a b : Rep, wf a = true → wf b = true → den a = den b → sameRep a b
-
-theorem wf_unique_partial (a b : Rep) (ha : wf a = true) (hb : wf b = true)
-    (fa : frag a = true) (fb : frag b = true) (h : den a = den b) : sameRep a b := by
-  have htag : ctorTag a = ctorTag b := by rw [← vtag_den a ha fa, ← vtag_den b hb fb, h]
-  cases a <;> cases b <;> simp [ctorTag] at htag <;> simp [frag] at fa fb
+/-- canonical forms are unique — for ALL representations (no fragment restriction): two canonical
+representations with the same denotation have the same constructor, the same scalar fields and children
+and collections that agree up to denotation and enumeration order -/
+theorem wf_unique (a b : Rep) (ha : wf a = true) (hb : wf b = true) (h : den a = den b) : sameRep a b := by
+  have htag : ctorTag a = ctorTag b := by rw [← vtag_den_wf a ha, ← vtag_den_wf b hb, h]
+  cases a <;> cases b <;> simp [ctorTag] at htag
   case num.num x y => simpa [den, sameRep] using h
   case gtuple.gtuple as bs =>
     simp only [den] at h
@@ -142,6 +176,8 @@ theorem wf_unique_partial (a b : Rep) (ha : wf a = true) (hb : wf b = true)
     simp only [den, V.mkSet, V.set.injEq] at h
     simp only [wf, Bool.and_eq_true, decide_eq_true_eq] at ha hb
     exact ⟨((dict_den_iff m m' ha.1.2 hb.1.2 ha.2 hb.2).1 h).1, (FinSet.mk_eq_iff _ _).1 h⟩
+  case relation.relation ns rows ns' rows' => exact relation_den_inj ns ns' rows rows' ha hb h
+  case union.union bs bs' => exact union_den_inj bs bs' ha hb h
   case generic.generic xs ys =>
     simp only [den, V.mkSet, V.set.injEq] at h
     have hm := (FinSet.mk_eq_iff _ _).1 h
@@ -312,5 +348,14 @@ example : let a : Rep := .generic [.generic [.num 1, .str [97, -1, 99] 2 1], .tr
 example : let a : Rep := .generic [.num 1, .bytes [1, 2] 3]
           let b : Rep := .generic [.bytes [1, 2] 3, .num 1]
     wf a = true ∧ wf b = true ∧ frag a = true ∧ frag b = true ∧ den a = den b ∧ equal a b = true := by decide
+
+example : let a : Rep := .union [("rel.generic", .generic [.num 1, .num 2]),
+      ("rel.DictEntryTuple", .dict [(.num 1, [.num 2]), (.str [97] 0 0, [.num 3, .true_])]),
+      ("rel.StringCharTuple", .str [97, -1, 98] 4 1)]
+    wf a = true ∧ frag a = true ∧ plain a = true := by decide
+
+example : let a : Rep := .relation ["b", "a"] [[.num 1, .gtuple [("x", .num 2)]], [.num 2, .empty]]
+          let b : Rep := .relation ["a", "b"] [[.empty, .num 2], [.gtuple [("x", .num 2)], .num 1]]
+    wf a = true ∧ wf b = true ∧ frag a = true ∧ frag b = true ∧ den a = den b := by decide
 
 end Arrai.C02.Theorems
